@@ -3,7 +3,7 @@
    for the ancestor-chain minima the writer stores. *)
 From Coq Require Import List Arith NArith Bool Lia.
 From Coq Require Import ZifyBool ZifyNat ZifyN.
-From NV Require Import Index.Bins Index.BinsProofs Index.Chunks Index.Indexer Index.BinnedProofs Index.CsiLoffset.
+From NV Require Import Index.Bins Index.BinsProofs Index.Chunks Index.Indexer Index.QueryProofs Index.BinnedProofs Index.CsiLoffset.
 Import ListNotations.
 Open Scope N_scope.
 Arguments N.add : simpl never. Arguments N.sub : simpl never. Arguments N.mul : simpl never.
@@ -114,6 +114,9 @@ Proof.
   specialize (IH p (if v <? cur then v else cur)). destruct (v <? cur) eqn:E; lia.
 Qed.
 
+Lemma stored_loffset_eq lm a v0 : loff_get lm a = Some v0 -> stored_loffset lm a = chain_min 64 lm a v0.
+Proof. intros H. unfold stored_loffset. rewrite H. reflexivity. Qed.
+
 Section Reread.
   Variables (ms : N) (d : nat) (q : N).
   Hypothesis Hg : ms + 3 * N.of_nat d < 64.
@@ -199,7 +202,7 @@ Section Reread.
       assert (Hw : witnessed lm (chain_min 64 lm a v0)).
       { apply chain_min_witnessed; [apply Hsch; apply in_map_iff; exists (a, v0); auto|exact Hq|].
         exists a. auto. }
-      unfold stored_loffset in Hv. rewrite Hget in Hv. subst v.
+      rewrite (stored_loffset_eq lm a v0 Hget) in Hv. subst v.
       destruct Hw as (b & Hb & Hqb). exists (chain_min 64 lm a v0). split; [|lia].
       apply in_qvals. exists b. auto.
     - (* every original value of a qualifying bin dominates that bin's stored value *)
@@ -210,15 +213,14 @@ Section Reread.
       exists (stored_loffset lm a). split.
       + apply in_qvals. exists a. split; [|exact Hq]. unfold reread_loffs. apply in_map_iff.
         exists (a, cs). auto.
-      + unfold stored_loffset.
-        assert (Hget : loff_get lm a = Some v).
+      + assert (Hget : loff_get lm a = Some v).
         { clear - Hnd Hin. induction lm as [|[k w] rest IH]; [destruct Hin|].
           cbn [map fst] in Hnd. apply NoDup_cons_iff in Hnd. destruct Hnd as [Hni Hnd].
           cbn [loff_get]. destruct Hin as [Heq|Hin].
           - injection Heq as -> ->. rewrite N.eqb_refl. reflexivity.
           - destruct (k =? a) eqn:E; [|apply IH; assumption].
             exfalso. apply Hni. apply in_map_iff. exists (a, v). split; [cbn; lia|exact Hin]. }
-        rewrite Hget. apply chain_min_le.
+        rewrite (stored_loffset_eq lm a v Hget). apply chain_min_le.
   Qed.
 End Reread.
 
@@ -234,3 +236,96 @@ Proof.
   pose proof (reread_min_offset_same ms d (s - 1) Hg bm lm Hnd Hk Hs) as H.
   unfold qvals in H. rewrite H. reflexivity.
 Qed.
+
+(* ---- indexes built by the Indexer satisfy the premises ---- *)
+Lemma keys_loff_update : forall lm id a,
+  map fst (loff_update lm id a) = if existsb (N.eqb id) (map fst lm) then map fst lm else map fst lm ++ [id].
+Proof.
+  induction lm as [|[k v] rest IH]; intros id a; cbn [loff_update map fst existsb app]; [reflexivity|].
+  destruct (k =? id) eqn:E.
+  - cbn [map fst]. replace (id =? k) with true by lia. reflexivity.
+  - cbn [map fst]. rewrite IH. replace (id =? k) with false by lia. cbn [orb].
+    destruct (existsb (N.eqb id) (map fst rest)); reflexivity.
+Qed.
+
+Lemma keys_bins_add : forall bm id c,
+  map fst (bins_add bm id c) = if existsb (N.eqb id) (map fst bm) then map fst bm else map fst bm ++ [id].
+Proof.
+  induction bm as [|[k cs] rest IH]; intros id c; cbn [bins_add map fst existsb app]; [reflexivity|].
+  destruct (k =? id) eqn:E.
+  - cbn [map fst]. replace (id =? k) with true by lia. reflexivity.
+  - cbn [map fst]. rewrite IH. replace (id =? k) with false by lia. cbn [orb].
+    destruct (existsb (N.eqb id) (map fst rest)); reflexivity.
+Qed.
+
+Lemma existsb_eqb_in id l : existsb (N.eqb id) l = true <-> In id l.
+Proof. rewrite existsb_exists. split; [intros (x & Hx & E); apply N.eqb_eq in E; subst x; exact Hx|intros H; exists id; split; [exact H|apply N.eqb_refl]]. Qed.
+
+Lemma NoDup_snoc {A} (l : list A) x : NoDup l -> ~ In x l -> NoDup (l ++ [x]).
+Proof.
+  induction l as [|y t IH]; intros Hnd Hni; cbn [app]; [constructor; [intros []|constructor]|].
+  apply NoDup_cons_iff in Hnd. destruct Hnd as [Hy Ht]. constructor.
+  - intros Hin. apply in_app_iff in Hin. destruct Hin as [Hin|[Hin|[]]]; [auto|]. subst y. apply Hni. left. reflexivity.
+  - apply IH; [exact Ht|]. intros Hin. apply Hni. right. exact Hin.
+Qed.
+
+Section Built.
+  Variables (ms : N) (d : nat).
+
+  Definition KeysInv (ix : refidx) (P : N -> Prop) : Prop :=
+    map fst (bins ix) = map fst (loffs ix) /\ NoDup (map fst (loffs ix)) /\
+    (forall id, In id (map fst (loffs ix)) -> P id).
+
+  Lemma keysinv_step ix (P : N -> Prop) r : KeysInv ix P -> P (binof ms d r) -> KeysInv (update ms d ix r) P.
+  Proof.
+    intros (Hk & Hnd & HP) Hr. unfold KeysInv, update. cbn [bins loffs]. fold (binof ms d r).
+    rewrite keys_bins_add, keys_loff_update, Hk.
+    destruct (existsb (N.eqb (binof ms d r)) (map fst (loffs ix))) eqn:E.
+    - auto.
+    - split; [reflexivity|]. split.
+      + apply NoDup_snoc; [exact Hnd|].
+        intros Hin. apply existsb_eqb_in in Hin. congruence.
+      + intros id Hin. apply in_app_iff in Hin. destruct Hin as [Hin|[Hin|[]]]; [auto|subst id; exact Hr].
+  Qed.
+
+  Lemma keysinv_fold (P : N -> Prop) : forall recs ix, KeysInv ix P -> (forall r, In r recs -> P (binof ms d r)) ->
+    KeysInv (fold_left (update ms d) recs ix) P.
+  Proof.
+    induction recs as [|r rest IH]; intros ix HI HP; cbn [fold_left]; [exact HI|].
+    apply IH; [apply keysinv_step; [exact HI|apply HP; left; reflexivity]|intros x Hx; apply HP; right; exact Hx].
+  Qed.
+
+  Lemma binof_in_scheme r : 1 <= r_s r -> r_s r <= r_e r -> r_e r <= max_position ms d -> in_scheme d (binof ms d r).
+  Proof.
+    intros H1 H2 H3. unfold binof, reg2bin.
+    assert (He0 : N.shiftr (r_e r - 1) (ms + 3 * N.of_nat d) = 0).
+    { unfold max_position in H3. rewrite N.shiftr_div_pow2. apply N.div_small.
+      assert (0 < 2 ^ (ms + 3 * N.of_nat d)) by (apply N.neq_0_lt_0, N.pow_nonzero; lia). lia. }
+    destruct (reg2bin_contains ms d (r_s r - 1) (r_e r - 1) ltac:(lia) He0) as (l & Hl & Heq & _).
+    assert (Hb0 : N.shiftr (r_s r - 1) (ms + 3 * N.of_nat d) = 0).
+    { pose proof (shiftr_mono (r_s r - 1) (r_e r - 1) (ms + 3 * N.of_nat d) ltac:(lia)). lia. }
+    exists l, (N.shiftr (r_s r - 1) (sh ms d l)). split; [exact Hl|]. split; [apply shiftr_lt_pow8; assumption|exact Heq].
+  Qed.
+
+  Theorem built_keysinv k file : spans_ok ms d file -> KeysInv (build_ref ms d k file) (in_scheme d).
+  Proof.
+    intros Hsp. unfold build_ref. apply keysinv_fold.
+    - unfold KeysInv. cbn. split; [reflexivity|]. split; [constructor|intros id []].
+    - intros r Hr. apply filter_In in Hr. destruct Hr as [Hr _]. destruct (Hsp r Hr) as (H1 & H2 & H3).
+      apply binof_in_scheme; assumption.
+  Qed.
+
+  (* A CSI index built by the Indexer answers every query with the same chunks after it has
+     been written (per-bin loffsets replaced by the ancestor-chain minima) and read back. *)
+  Theorem csi_roundtrip_queries k file qs qe :
+    ms + 3 * N.of_nat d < 64 -> spans_ok ms d file ->
+    let ix := build_ref ms d k file in
+    query Binned ms d (mkref (bins ix) (lin ix) (reread_loffs (bins ix) (loffs ix))) qs qe
+    = query Binned ms d ix qs qe.
+  Proof.
+    intros Hg Hsp ix. destruct (built_keysinv k file Hsp) as (Hk & Hnd & Hs). fold ix in Hk, Hnd, Hs.
+    unfold query. cbn [min_offset loffs]. unfold query_chunks. cbn [bins].
+    rewrite (csi_reread_min_offset ms d (bins ix) (loffs ix) qs Hg Hnd); [reflexivity| |exact Hs].
+    intros id. rewrite Hk. tauto.
+  Qed.
+End Built.
